@@ -28,6 +28,12 @@ func checkC06(c *Ctx) {
 	c06Keys(c)
 	c06PRF(c)
 	c06Suite(c)
+	c06SuiteFlags(c)
+	if n := bitsToBytes(c, "P-WIDTH-bits", []string{"gmtls"}); n > 0 {
+		c.Holds("P-WIDTH-bits", "gmtls", "every byte count computed from a curve's BitSize rounds up", fmt.Sprintf("%d uses of BitSize inspected", n), token.NoPos)
+	} else {
+		c.Undecided("P-WIDTH-bits", "gmtls", "uses of BitSize", "none found", token.NoPos)
+	}
 	c06Immutable(c)
 	c06Policy(c)
 	c08ClientAuth(c) // both servers apply the same client-certificate policy (the rule of C08)
@@ -36,6 +42,7 @@ func checkC06(c *Ctx) {
 	c06MsgBytes(c)
 	c06MaxPayload(c)
 	c06RecordLimit(c)
+	msgFrozenAfterMarshal(c, "K-MSG-frozen")
 	c06Fragment(c)
 	c06Deliver(c)
 	c07MustDecrypt(c) // includes: Read pulls a new record only when no decrypted data is pending
